@@ -392,6 +392,17 @@ def circuits_of(x):
     return [x.initial_state_circuit] if isinstance(x, EvolvingAnsatzMinimumEigensolverResult) else []
 
 
+_PERSISTENT = {}
+
+
+def persistent(codec):
+    """one long-lived encoder and decoder instance per codec, reused for every object of the run (JSONEncoder/JSONDecoder instances are reusable by design)"""
+    if codec not in _PERSISTENT:
+        enc, decd = codecs()[codec]
+        _PERSISTENT[codec] = (enc(), decd())
+    return _PERSISTENT[codec]
+
+
 def check_object(ctx, label, x, codec, tag="generated"):
     enc, decd = codecs()[codec]
     drv = ctx.lean("Codec")
@@ -420,6 +431,16 @@ def check_object(ctx, label, x, codec, tag="generated"):
             for a, b in zip(circuits_of(x), circuits_of(y)):
                 if a is not None and not (a == b):
                     ctx.violate("the initial-state circuit of a solver result does not survive the round trip", inp, None, key="roundtrip:circuit")
+    # the same through the long-lived encoder / decoder instances
+    try:
+        pe, pd = persistent(codec)
+        y2 = pd.decode(pe.encode(x))
+        r2 = render(y2)
+    except Exception as e:  # noqa: BLE001
+        r2 = {"raised": type(e).__name__ + ": " + str(e)[:100]}
+    if r2 != rx and (ry is None or ry == rx):
+        ctx.violate(f"a {label} does not survive the {codec} JSON round trip through an encoder/decoder instance that was used before", inp, {"decoded": r2},
+                    key=f"roundtrip-reused:{label}:{codec}")
     # model
     if drv is not None:
         tree = json.loads(text)
